@@ -493,6 +493,7 @@ class QueryChecker:
 
         def once(ch):
             w = QueryWorld(cls, shape, ch, methods, self.functions, removal=removal)
+            w.lazy_zero_window = (-1, 1)        # a query that looks at the truth of its instant is also run with q == 0
             ip = Interp(w, ot, max_depth=10)
             try:
                 return w, ip.call_function(fn, env_of(w)), None
@@ -522,7 +523,9 @@ class QueryChecker:
             st = Static(shape, present)
             pres = ", ".join("%s%s%s:%s" % (k[1][0], "->" if shape.directed else "-", k[1][1], "in" if v else "out")
                              for k, v in sorted(ch.items(), key=str) if isinstance(k, tuple) and k[0] == "present")
-            wit = "%s | %s | %s%s" % (shape.name, label, "t=q" if with_t else "t=None", (" | presence: " + pres) if pres else "")
+            zero = next((" (the literal 0 %s)" % ("far below q" if k[0] == "zero-far-below" else ("far above q" if k[0] == "zero-far-above" else "= q%+d" % k[2]))
+                         for k, v in ch.items() if v and isinstance(k, tuple) and str(k[0]).startswith("zero-")), "")
+            wit = "%s | %s | %s%s%s" % (shape.name, label, "t=q" if with_t else "t=None", zero, (" | presence: " + pres) if pres else "")
             if w.effects:
                 self.add(construct, "query-writes", "the query writes graph state: %s" % (w.effects[0][0],), wit, w.effects[0][1])
             judge(st, val, r, wit, asked, ch)
